@@ -33,7 +33,7 @@ def run(case):
     denv = dict(els)
     denv.update(T=sd.time(), DT=sd.dt(m), START=sd.starttime(m), F_min=sd.min, F_max=sd.max, F_abs=sd.abs, F_if=sd.If,
                 F_step=sd.step, F_lookup=lambda x: sd.lookup(x, PTS), F_pulse=lambda v, f, i: sd.pulse(m, v, f, i),
-                F_delay=lambda x, d, iv: sd.delay(m, x, d, iv), F_smooth=lambda x, a, iv: sd.smooth(m, x, a, iv), F_sqrt=sd.sqrt)
+                F_delay=lambda x, d, iv: sd.delay(m, x, d, iv), F_smooth=lambda x, a, iv: sd.smooth(m, x, a, iv), F_trend=lambda x, a, iv: sd.trend(m, x, a, iv), F_sqrt=sd.sqrt)
     try:
         for kind, name, spec in case["elements"]:
             if kind == "stock":
@@ -57,6 +57,15 @@ def run(case):
     except Exception as e:
         return None      # the DSL rejects the model: not a test
     bad = compare(case, m, els, start, dt, steps, grid)
+    if not bad and case.get("edit"):
+        # an edit through the modelling API on the model that has just been evaluated: a constant gets a new number
+        nm, newv = case["edit"]
+        els[nm].equation = float(newv)
+        case2 = dict(case, elements=[(k_, n_, (float(newv) if n_ == nm else s_)) for (k_, n_, s_) in case["elements"]])
+        bad = compare(case2, m, els, start, dt, steps, grid)
+        if bad:
+            return "after %s.equation = %r on the evaluated model: %s" % (nm, newv, bad)
+        case = case2
     if bad or not case.get("dt2"):
         return bad
     # second phase: the run spec is changed on the existing model (direct assignment), caches reset, and the model re-run
@@ -117,15 +126,19 @@ def compare(case, m, els, start, dt, steps, grid):
                 if j not in st:
                     st[j] = st[j - 1] + dt * ((val(x_name, j - 1) - st[j - 1]) / a)
             return st[max(k, 0)]
+        def f_trend(x_name, a, iv):
+            # trend = (input - average) / (average * averaging time), average = first-order exponential average of the input
+            avg = f_smooth(x_name, a, iv)
+            return (val(x_name, k) - avg) / (avg * a)
         env = Env(T=t, DT=dt, START=start, F_min=min, F_max=max, F_abs=abs, F_if=lambda c, a, b: a if c else b,
                   F_step=lambda h, s: h if t > s else 0.0, F_lookup=lambda x: lerp(x, PTS),
                   F_pulse=lambda v, f, i: (v / dt) if ((t == f) if i == 0 else ((t - f) >= 0 and abs(((t - f) / i) - round((t - f) / i)) < 1e-9)) else 0.0,
-                  F_delay=f_delay, F_smooth=f_smooth, F_sqrt=lambda x: x ** 0.5)
+                  F_delay=f_delay, F_smooth=f_smooth, F_trend=f_trend, F_sqrt=lambda x: x ** 0.5)
         return eval(expr.replace("F_delay(", "F_delay(_n(").replace("F_smooth(", "F_smooth(_n("), {"__builtins__": {}, "_n": None}, env) if False else eval(_quote(expr), {"__builtins__": {}}, env)
     def _quote(expr):
         # delay / smooth take the NAME of their input element in the reference
         import re
-        return re.sub(r"F_(delay|smooth)\\((\\w+)", lambda mo: "F_%s('%s'" % (mo.group(1), mo.group(2)), expr)
+        return re.sub(r"F_(delay|smooth|trend)\\((\\w+)", lambda mo: "F_%s('%s'" % (mo.group(1), mo.group(2)), expr)
     try:
         want = {name: [val(name, k) for k in range(len(grid))] for _, name, _ in case["elements"]}
     except (ZeroDivisionError, OverflowError, ValueError, TypeError, RecursionError):
@@ -157,7 +170,7 @@ def gen_expr(rnd, names, depth, allow_stock=True):
         return '(%s %s %s)' % (gen_expr(rnd, names, depth - 1), rnd.choice(['+', '-', '*', '+', '-']), gen_expr(rnd, names, depth - 1))
     if r < 0.6:
         return '(%s / (1.0 + F_abs(%s)))' % (gen_expr(rnd, names, depth - 1), gen_expr(rnd, names, depth - 1))
-    f = rnd.choice(['F_min', 'F_max', 'F_if', 'F_step', 'F_lookup', 'F_pulse', 'F_delay', 'F_smooth', 'F_abs'])
+    f = rnd.choice(['F_min', 'F_max', 'F_if', 'F_step', 'F_lookup', 'F_pulse', 'F_delay', 'F_smooth', 'F_trend', 'F_abs'])
     if f in ('F_min', 'F_max'):
         return '%s(%s, %s)' % (f, gen_expr(rnd, names, depth - 1), gen_expr(rnd, names, depth - 1))
     if f == 'F_if':
@@ -168,6 +181,8 @@ def gen_expr(rnd, names, depth, allow_stock=True):
         return 'F_lookup(%s)' % gen_expr(rnd, names, depth - 1)
     if f == 'F_pulse':
         return 'F_pulse(%s, %s, %s)' % (rnd.choice(['4.0', 'c1']), rnd.choice(['1.0', '2.0']), rnd.choice(['0.0', '2.0']))
+    if f == 'F_trend' and names:
+        return 'F_trend(%s, %s, %s)' % (rnd.choice(names), rnd.choice(['2.0', '4.0']), rnd.choice(['(-3.0)', '3.0', '(-0.5)']))
     if f in ('F_delay', 'F_smooth') and names:
         if f == 'F_delay':
             return 'F_delay(%s, %s, %s)' % (rnd.choice(names), rnd.choice(['1.0', '2.0']), rnd.choice(['0.0', '5.0', '(-1.0)']))
@@ -176,6 +191,13 @@ def gen_expr(rnd, names, depth, allow_stock=True):
 
 
 def gen(rnd):
+    case = _gen(rnd)
+    if rnd.random() < 0.3:
+        case['edit'] = (rnd.choice(['c1', 'c2']), rnd.choice([7.0, -4.0, 0.25]))
+    return case
+
+
+def _gen(rnd):
     dt = rnd.choice([1.0, 0.5, 0.25])
     elements = [('constant', 'c1', rnd.choice([3.0, -2.0, 0.5])), ('constant', 'c2', rnd.choice([1.0, 4.0]))]
     names = []
